@@ -100,6 +100,7 @@ class Ops(object):
         self.allocs = {}
         self.ret = None
         self.shift_var = None
+        self.shift_src = None
         self.run()
 
     def err(self, s):
@@ -112,10 +113,10 @@ class Ops(object):
             if isinstance(s, ast.Assign) and isinstance(s.value, ast.Call) and dotted(s.value.func) == "new_array":
                 self.allocs[dotted(s.targets[0])] = [norm(a) for a in s.value.args]
                 continue
-            if isinstance(s, ast.Assign) and isinstance(s.value, ast.Call) and dotted(s.value.func) == "filter_bit_shift":
-                if [dotted(a) for a in s.value.args] != ["state"]:
-                    self.err(s)
+            if isinstance(s, ast.Assign) and len(s.targets) == 1 and isinstance(s.targets[0], ast.Name) and "filter_bit_shift" in norm(s.value):
+                # the amount of the accuracy shift: recorded, compared between synthesis and analysis in rule_c
                 self.shift_var = dotted(s.targets[0])
+                self.shift_src = norm(s.value)
                 continue
             if isinstance(s, ast.If):
                 self.shift_if(s)
@@ -399,6 +400,7 @@ def rule_c(repo, res, md, me):
             ak = [op[2] for op in A.ops if op[0] == d]
             if sk or ak:
                 res.check(sk == ak, "C11.c", "%s:%s-filter-key" % (aname, "vertical" if d == "V" else "horizontal"), where, "%s filtering uses state[%s] in %s but state[%s] in %s" % ("column" if d == "V" else "row", sk, sname, ak, aname), by="state[%r] on both sides" % (ak[0] if ak else None))
+        res.check(S.shift_src == A.shift_src == "filter_bit_shift(state)", "C11.c", "%s:shift-amount" % aname, where, "synthesis shifts right by `%s`; analysis shifts left by `%s`: the accuracy bits added before analysis must be exactly those removed after synthesis" % (S.shift_src, A.shift_src), by="filter_bit_shift(state) on both sides")
         afn = [op[1] for op in A.ops if op[0] in ("V", "H")]
         res.check(all(f == "oned_analysis" for f in afn), "C11.c", "%s:uses-oned-analysis" % aname, where, "analysis must call oned_analysis, found %s" % afn, by="oned_analysis")
         # interleave maps: compare by position in the synthesis argument list / analysis return tuple
@@ -516,10 +518,49 @@ def rule_e(repo, res, me):
 
     res.check(dim("width", "subband_width"), "C11.e", "pad:width-target", where, "rows must be padded to subband_width(state, dwt_depth + dwt_depth_ho + 1, c)", by="subband_width at the top level")
     res.check(dim("height", "subband_height"), "C11.e", "pad:height-target", where, "columns must be padded to subband_height(state, dwt_depth + dwt_depth_ho + 1, c)", by="subband_height at the top level")
-    conds = [norm(n.test) for n in ast.walk(fn) if isinstance(n, ast.While)]
     pic = fn.args.args[1].arg
-    ok = any(c.endswith("< width") and "len(" in c for c in conds) and ("len(%s) < height" % pic) in conds
-    res.check(ok, "C11.e", "pad:extends-to-target", where, "padding loops must extend each row while len(row) < width and the picture while len(pic) < height (found %s)" % conds, by="extend rows to width, then rows to height")
+    # rows extended to `width`, picture extended to `height`: while-append or extend forms
+    def count_expr_ok(e, target, seq):
+        """e == target - len(seq)"""
+        return lin(e) == lin(ast.parse("%s - len(%s)" % (target, seq), mode="eval").body)
+
+    rows_ok = pic_ok = False
+    for n in ast.walk(fn):
+        if isinstance(n, ast.While) and isinstance(n.test, ast.Compare) and isinstance(n.test.ops[0], ast.Lt):
+            l, r = norm(n.test.left), norm(n.test.comparators[0])
+            if r == "width" and l.startswith("len(") and l != "len(%s)" % pic:
+                rows_ok = True
+            if r == "height" and l == "len(%s)" % pic:
+                pic_ok = True
+        if isinstance(n, ast.Call) and isinstance(n.func, ast.Attribute) and n.func.attr == "extend" and n.args:
+            seq = norm(n.func.value)
+            a = n.args[0]
+            cnt = None
+            if isinstance(a, ast.BinOp) and isinstance(a.op, ast.Mult):
+                cnt = a.right if isinstance(a.left, ast.List) else a.left
+            elif isinstance(a, (ast.ListComp, ast.GeneratorExp)) and len(a.generators) == 1 and isinstance(a.generators[0].iter, ast.Call) and dotted(a.generators[0].iter.func) == "range" and len(a.generators[0].iter.args) == 1:
+                cnt = a.generators[0].iter.args[0]
+            if cnt is not None:
+                if seq == pic and count_expr_ok(cnt, "height", pic):
+                    pic_ok = True
+                elif seq != pic and count_expr_ok(cnt, "width", seq):
+                    rows_ok = True
+    res.check(rows_ok and pic_ok, "C11.e", "pad:extends-to-target", where, "each row must be extended to `width` and the picture to `height` (rows: %s, picture: %s)" % (rows_ok, pic_ok), by="rows to width, then picture to height")
+    # padding rows must be distinct objects: the transform works in place
+    aliased = []
+    for n in ast.walk(fn):
+        if isinstance(n, ast.BinOp) and isinstance(n.op, ast.Mult):
+            lst = n.left if isinstance(n.left, ast.List) else n.right if isinstance(n.right, ast.List) else None
+            if lst is not None and len(lst.elts) == 1:
+                e = lst.elts[0]
+                rowlike = (isinstance(e, ast.Subscript) and isinstance(e.slice, ast.Slice)) or (isinstance(e, ast.Call) and dotted(e.func) in ("list", "copy", "deepcopy")) or (isinstance(e, ast.Subscript) and dotted(e.value) == pic) or isinstance(e, (ast.List, ast.ListComp))
+                if rowlike:
+                    aliased.append(short(n, 60))
+        if isinstance(n, ast.Call) and isinstance(n.func, ast.Attribute) and n.func.attr == "append" and norm(n.func.value) == pic and n.args:
+            e = n.args[0]
+            if isinstance(e, ast.Subscript) and dotted(e.value) == pic and not isinstance(e.slice, ast.Slice):
+                aliased.append(short(n, 60))
+    res.check(not aliased, "C11.e", "pad:rows-are-distinct-objects", where, "padding rows share one list object (%s): the in-place analysis then filters the shared row several times and the round trip fails whenever two or more rows are added" % aliased, by="every added row is a fresh copy")
     # forward_wavelet_transform pads all three components before transforming
     fw = me.funcs.get("forward_wavelet_transform")
     t = norm(fw) if fw is not None else ""
